@@ -327,7 +327,7 @@ impl Phase for Pairs {
             },
             8 => {
                 // a value-producing snippet of each type, so that every Ok variant meets every entry point
-                r.pick(&["\"str\"", "4", "2.5", "true", "(1, 2.5, \"x\")", "()", "x = 3", "1;", "len(\"abc\")", "1/0", "nosuch(1)", "u", "5 + 1.0", "\"a\" + \"b\"", "(1,2) == (1,2)", "!true", "x0", "x1 = x0", "min(4, 2)", "len(\"abc\") + 1", "typeof(x)", "max(1, 3) == 3", "x", "y", "x2", "math::pi", "math::e + 1", "math::tau", "PI", "E", "pi", "e", "nan", "inf", "a = math::pi", "answer", "version", "_"])
+                r.pick(&["\"str\"", "4", "2.5", "true", "(1, 2.5, \"x\")", "()", "x = 3", "1;", "len(\"abc\")", "1/0", "nosuch(1)", "u", "5 + 1.0", "\"a\" + \"b\"", "(1,2) == (1,2)", "!true", "x0", "x1 = x0", "min(4, 2)", "len(\"abc\") + 1", "typeof(x)", "max(1, 3) == 3", "x", "y", "x2", "math::pi", "math::e + 1", "math::tau", "PI", "E", "pi", "e", "nan", "inf", "a = math::pi", "answer", "version", "_", "x == x", "x0 == x0", "x1 != x1", "x2 == x2", "(x, 1) == (x, 1)", "x >= x"])
                     .to_string()
             },
             9 if r.chance(1, 2) => {
@@ -364,8 +364,20 @@ impl Phase for Pairs {
         };
         let model = random_model(r);
         let log = observe::new_log();
-        let c0 = api::ctx_from_model(&model, &log);
-        check_pair(out, &src, &c0, format!("context {}; builtins {}", model.show_vars(), if model.builtins_off { "off" } else { "on" }));
+        let mut c0 = api::ctx_from_model(&model, &log);
+        let mut extra = String::new();
+        if r.chance(1, 16) {
+            // contexts accept any string as a name: a variable named like the whole source text (or its trimmed form)
+            // is still not what the source text means
+            use evalexpr::ContextWithMutableVariables;
+            let name = if r.chance(1, 2) { src.trim().to_string() } else { src.clone() };
+            if !name.is_empty() && crate::refmodel::lex::lex(&name).map_or(true, |t| !t.unclaimed && (t.toks.len() != 1 || !matches!(t.toks[0].inner(), Tok::Ident(_)))) {
+                let _ = c0.set_value(name.clone(), evalexpr::Value::Int(424242));
+                extra = format!("; plus a variable named {:?} = 424242", name);
+                out.count("contexts with a variable named like the source text");
+            }
+        }
+        check_pair(out, &src, &c0, format!("context {}; builtins {}{}", model.show_vars(), if model.builtins_off { "off" } else { "on" }, extra));
         // keep the tree (now evaluated once) for reuse under other contexts
         if let Ok(Ok(t)) = guard(|| build_operator_tree::<DefaultNumericTypes>(&src)) {
             let mut warm = c0.clone();
